@@ -47,9 +47,9 @@ def run(rep):
     # metadata, with_extension make it time out): files named after the directory beside it, sibling directories
     # sharing its prefix, a sentinel one level up
     native.bounded_stand_in(rep, ID, "c19", [], "c19_real_directory_tree",
-                            "LocalLoader::get on a real temporary tree never returns the content of a file outside the mapped directory (sentinel content in <tmp>/secret.ttl, <tmp>/root.{ttl,nt,...}, <tmp>/root-private/, <tmp>/rootsub/) and still serves a file inside it",
-                            "43 IRIs: dot segments, absolute remainders, percent-encoded dots / slashes, fragments, the namespace itself, nested namespaces",
-                            "<LocalLoader as Loader>::get incl. the extension-guessing retry, LocalLoader::new (resource/src/loader/_local.rs) against the real file system",
+                            "LocalLoader::get on a real temporary tree never returns the content of a file outside the mapped directory (sentinel content in <tmp>/secret.ttl, <tmp>/root.{ttl,nt,...}, <tmp>/root-private/, <tmp>/rootsub/) and still serves a file inside it; a directory configured relatively is refused or keeps designating the same directory after the working directory changed",
+                            "43 IRIs (+9 with a relatively configured directory and a changed working directory): dot segments, absolute remainders, percent-encoded dots / slashes, fragments, the namespace itself, nested namespaces",
+                            "<LocalLoader as Loader>::get incl. the extension-guessing retry, LocalLoader::new / check (resource/src/loader/_local.rs) against the real file system",
                             "./check C19 --replay <this file>   # replay_src/c19")
     rep.not_covered += ["symbolic suffixes (CBMC does not finish on std::path parsing)", "nested / overlapping namespace configurations and the extension retry after NotFound beyond the IRIs of the native stand-in", "Resource::get_neighbour (calls the same loader)", "symbolic links, Windows prefixes"]
     rep.notes.append("bounded: representative IRIs only")
